@@ -188,6 +188,10 @@ class Gen:
         return f"range({self.c_int(sc, depth + 1)} % 4)|list|length"
 
     def c_str(self, sc: Scope, depth: int) -> str:
+        if self.env_globals and self.chance(1, 14):
+            # a free name that some loop elsewhere may be setting at this very moment (must stay undefined here)
+            self.prog.feat("free_name_from_pool")
+            return f"({self.pick(['cva', 'cvb'])}|default('-'))"
         if self.env_globals and self.chance(1, 10):
             # environment global whose string conversion is a data event (visible in modules imported without context)
             self.prog.feat("env_global_str_object")
@@ -531,7 +535,9 @@ class Gen:
         "{'b': 1, 'a': 2}|dictsort|list|string", "['b', 'a', 'b', 'c']|unique|join(',')", "{'k': 'v w', 'j': 1}|urlencode",
         "['x', 'y', 'z']|join('|')|upper", "{'b': 1, 'a': 2}|items|list|string", "'a b c'|wordcount", "[3, 1, 2]|sort|join",
         "{'b': {'y': 1, 'x': 2}}|tojson(indent=1)", "'%s-%s'|format('a', 'b')", "('a', 'b', 'c')|reverse|join",
-        "['aa', 'b']|map('length')|sum", "'a,b'|replace(',', ';')|title", "{'a': 1}|pprint", "[('b', 1), ('a', 2)]|groupby(0)|list|length",
+        "['aa', 'b']|map('length')|sum", "'alpha beta gamma delta epsilon zeta'|wordwrap(7)",
+        "'alpha beta gamma-delta epsilon zeta eta'|wordwrap(13, false, '|', false)", "'alpha beta gamma delta'|truncate(9)",
+        "'alpha beta gamma delta'|truncate(14, true, '!', 0)", "'a\nb\n\nc'|indent(4, true, true)", "'x'|center(9)", "'a,b'|replace(',', ';')|title", "{'a': 1}|pprint", "[('b', 1), ('a', 2)]|groupby(0)|list|length",
     ]
 
     def stmt(self, sc: Scope, depth: int) -> str:
@@ -715,7 +721,8 @@ class Gen:
             # a @pass_context global gets a context derived for THIS call (loop / block variables included) and reads
             # the variable back after suspending (async) - each call must see its own frame's value
             P.feat("pass_context_global_reads_local")
-            v = self.fresh("cv")
+            # names from a tiny pool: another macro of the same module may read the very name as a free variable
+            v = self.pick(["cva", "cvb"]) if self.chance(1, 2) else self.fresh("cv")
             s = self.tag(f"set {v} = {self.e_int(sc, 1)}")
             sc.ints.append(v)
             return s + self.var(f"gcx('{v}')") + self.var(v)
@@ -1158,9 +1165,61 @@ MICRO_PAIRS = [
 ]
 
 
+# constant expressions the optimizer folds at COMPILE time: two compilations that use one filter two ways
+CONST_PAIRS = [
+    ("'alpha beta gamma delta epsilon zeta'|wordwrap(7)", "'alpha beta gamma-delta epsilon zeta eta'|wordwrap(13, false, '|', false)"),
+    ("'alpha beta gamma delta'|truncate(9)", "'alpha beta gamma delta'|truncate(14, true, '!', 0)"),
+    ("'a\nb\nc'|indent(2)", "'a\nb\n\nc'|indent(4, true, true)"),
+    ("'x'|center(9)", "'yy'|center(15)"),
+    ("{'b': 1, 'a': 2}|tojson", "{'b': {'y': 1, 'x': 2}}|tojson(indent=1)"),
+    ("'docs: http://example.org/x'|urlize", "'see www.example.org now'|urlize(8, true, target='_top', rel='me friend')"),
+    ("{'b': 1, 'a': 2}|dictsort|list|string", "{'b': 1, 'a': 2}|dictsort(false, 'value', true)|list|string"),
+    ("{'b': 1, 'a': '<'}|xmlattr", "{'class': 'c d', 'id': 1}|xmlattr(false)"),
+    ("'%s-%s'|format('a', 'b')", "'%(a)s/%(b)s'|format(a='x', b=2)"),
+    ("'a,b,a'|replace(',', ';')", "'a,b,a'|replace('a', 'z', 1)"),
+    ("(10 / 3)|round(1)", "(22 / 7)|round(2, 'floor')"),
+    ("[1, 2, 3]|batch(2)|list|string", "['a', 'b', 'c', 'd']|batch(3, 'x')|list|string"),
+    ("['b', 'a', 'b']|unique|join(',')", "['B', 'b', 'a']|unique(case_sensitive=true)|join"),
+    ("[3, 1, 2]|sort|join", "['b', 'A', 'c']|sort(reverse=true, case_sensitive=true)|join"),
+    ("1000000|filesizeformat", "1000000|filesizeformat(true)"),
+    ("'ab'|title", "'hello world'|capitalize"),
+]
+
+
+# module micro programs: (module source, template A, template B); A and B import the module WITHOUT context, so they
+# run its macros through the one cached module object (and its one context)
+MICRO_MODULES = [
+    ("{% macro a(q) %}{% for i in [1, 2] %}{% set cva = i + q %}{{ gcx('cva') }}{% endfor %}{% endmacro %}"
+     "{% macro b(q) %}[{{ cva|default('-') }}{{ q }}]{% endmacro %}",
+     "{% from 'mod' import a, b %}{{ a(n1) }}", "{% from 'mod' import a, b %}{{ b(n2) }}{{ b(1) }}"),
+    ("{% macro c(q) %}<b>{{ gf(q) }}&</b>{% endmacro %}",
+     "{% from 'mod' import c %}{{ c(1) }}", "{% from 'mod' import c %}{% autoescape true %}{{ c(2) }}{% endautoescape %}"),
+    ("{% macro w(t) %}<{{ t }}:{{ caller() }}>{% endmacro %}",
+     "{% from 'mod' import w %}{% call w('x') %}{{ gf(1) }}{{ s1 }}{% endcall %}", "{% from 'mod' import w %}{% call w('y') %}{{ s2 }}{% endcall %}"),
+    ("{% macro t(tr) %}{% for n in tr recursive %}{{ n.v }}{% if n.c %}({{ loop(n.c) }}){% endif %}{{ loop.depth }}{% endfor %}{% endmacro %}",
+     "{% import 'mod' as m %}{{ m.t(tree) }}", "{% import 'mod' as m %}{{ m.t(tree) }}|{{ m.t([]) }}"),
+    ("{% macro d(a, b=gf(1)) %}{{ a }}{{ b }}{{ varargs|length }}{{ kwargs|length }}{% endmacro %}{% set mv = gn %}top",
+     "{% import 'mod' as m %}{{ m.d(1) }}{{ m.mv }}", "{% import 'mod' as m %}{{ m.d(2, 3, 4, k=5) }}{{ m }}"),
+    ("{% macro f(xs) %}{% for x in xs if x is odd %}{{ loop.index }}{{ x }}{{ loop.cycle('a', 'b') }}{% else %}none{% endfor %}{% endmacro %}",
+     "{% from 'mod' import f %}{{ f(l1) }}", "{% from 'mod' import f %}{{ f([2, 4]) }}{{ f([1, 3, 5]) }}"),
+    ("{% macro j(xs) %}{{ xs|join('<br>'|safe) }}{% endmacro %}{% macro k(s) %}{% filter upper %}{{ s }}{% endfilter %}{% endmacro %}",
+     "{% from 'mod' import j, k %}{{ j(l2) }}", "{% from 'mod' import j, k %}{{ k(s1) }}{{ j(['<x>']) }}"),
+    ("x{{ gn }}y", "[{% include 'mod' without context %}]", "{% import 'mod' as m %}{{ m }}|{% include 'mod' without context %}"),
+]
+
+
 def micro_program(tape, stream: str = "w") -> Program:
     """Two one-expression templates that use the same filter / test / global in two different ways."""
     P = Program()
+    if tape.draw(4, stream) == 3:
+        mod, a_, b_ = MICRO_MODULES[tape.draw(len(MICRO_MODULES), stream)]
+        if tape.draw(2, stream):
+            a_, b_ = b_, a_
+        P.templates = {"mod": mod, "main": a_, "m1": b_}
+        P.entry_points = ["main", "m1"]
+        P.feat("micro")
+        P.feat("micro_module")
+        return P
     a, b = MICRO_PAIRS[tape.draw(len(MICRO_PAIRS), stream)]
     if tape.draw(2, stream):
         a, b = b, a
